@@ -165,7 +165,7 @@ func cmdEnvCases(args []string) error {
 				if m == nil {
 					break
 				}
-				if m[2] != m[4] || m[1] != m[5] || vals[m[1]] != m[3] {
+				if m[2] != m[4] || m[1] != m[5] || strings.TrimRight(vals[m[1]], "\n") != strings.TrimRight(m[3], "\n") { // "up to trailing newlines": the shell drops them anyway
 					break
 				}
 				blocks++
